@@ -181,8 +181,35 @@ pub fn run(args: &Args) -> i32 {
         for &w in &block {
             sig.wires.entry(w).or_insert_with(|| vec![0.0; WIRE_N - DELAY]);
         }
+        // every other phase: per-wire waveform lengths differ (longest only on some wires of the block)
+        if phase % 2 == 1 {
+            for (w, s) in sig.wires.iter_mut() {
+                s.truncate(WIRE_N - DELAY - 11 * (w % 4));
+            }
+        }
         let rots: &[usize] = if n >= 250 && !thorough { &few_rot } else { &all_rot };
         check_pattern(&sig, rots, true, json!({"family": "seam-blocks", "block_start": start, "block_len": n}), loc);
+    });
+
+    // F2b: two separate blocks (a seam-straddling one and a second one a few wires further, same or next pad column)
+    rep.run("two-blocks", 6 * 4 * 4, 600, true, "block A of 3..8 wires straddling the 255/0 seam + gap of 1..4 empty wires + block B of 3 wires, avalanches on the first and last wire of each, block A placed at 4 alignments: rotations + mirror", |idx, loc| {
+        let d = unrank(idx, &[6, 4, 4]);
+        let (la, gap, shift) = (3 + d[0] as usize, 1 + d[1] as usize, d[2] as usize);
+        let a0 = (256 - la / 2 - shift) % 256;
+        let a: Vec<usize> = (0..la).map(|j| (a0 + j) % 256).collect();
+        let b: Vec<usize> = (0..3).map(|j| (a0 + la + gap + j) % 256).collect();
+        let mut hits = Vec::new();
+        for (k, blk) in [&a, &b].into_iter().enumerate() {
+            for (j, &w) in [blk[0], blk[blk.len() - 1]].iter().enumerate() {
+                hits.push(Hit { wire: w, bin: 20 + 9 * k + 4 * j, z: -0.2 + 0.11 * k as f64 + 0.03 * j as f64, amp: 90.0 + 17.0 * (k * 2 + j) as f64 });
+            }
+        }
+        let mut sig = hits_signals(&hits, 0.004);
+        sig.wires.retain(|w, _| a.contains(w) || b.contains(w));
+        for &w in a.iter().chain(&b) {
+            sig.wires.entry(w).or_insert_with(|| vec![0.0; WIRE_N - DELAY]);
+        }
+        check_pattern(&sig, &all_rot, true, json!({"family": "two-blocks", "block_a": a, "block_b": b}), loc);
     });
 
     // F3: forward-model lattice events
@@ -196,10 +223,10 @@ pub fn run(args: &Args) -> i32 {
     });
 
     // F4: synthetic 2- and 3-avalanche events in one column and time bin, distinct and equal amplitudes
-    rep.run("same-bin-multiplets", 2 * 3 * 3 * 8, 600, true, "2 or 3 avalanches in the same pad column and time bin x wire amplitudes {distinct, equal, two equal} x z separations {12 mm, 40 mm, 200 mm} x column phase: rotations + mirror", |idx, loc| {
-        let d = unrank(idx, &[2, 3, 3, 8]);
+    rep.run("same-bin-multiplets", 2 * 3 * 4 * 8, 600, true, "2 or 3 avalanches in the same pad column and time bin x wire amplitudes {distinct, equal, two equal} x z separations {8 mm (2 pad rows), 12 mm, 40 mm, 200 mm} x column phase: rotations + mirror", |idx, loc| {
+        let d = unrank(idx, &[2, 3, 4, 8]);
         let n = 2 + d[0] as usize;
-        let sep = [0.012, 0.040, 0.2][d[2] as usize];
+        let sep = [0.008, 0.012, 0.040, 0.2][d[2] as usize];
         let hits: Vec<Hit> = (0..n).map(|i| Hit {
             wire: (8 + 8 * d[3] as usize + [1, 4, 6][i]) % 256,
             bin: 30,
